@@ -43,6 +43,12 @@ Theorem C12_reorder_f_named_first_in_argument_order :
 Proof. exact reorder_f_spec. Qed.
 Print Assumptions C12_reorder_f_named_first_in_argument_order.
 
+(* reorder -e -f a,b,...: the others first in record order, then the named fields that are present, in argument order *)
+Theorem C12_reorder_e_named_last_in_argument_order :
+  forall fs r, NoDup fs -> wf r -> reorder_e fs r = filter (unnamed fs) r ++ pick fs r.
+Proof. exact reorder_e_spec. Qed.
+Print Assumptions C12_reorder_e_named_last_in_argument_order.
+
 (* ---- rename: fields that are neither an old nor a new name keep name, value and relative order (any name list);
    rename a,b then b,a is the identity when b is new *)
 Theorem C12_rename_bystanders :
